@@ -39,7 +39,7 @@ class Snap:
         self.neth, self.netv = f["_net_attr"].get()
         self.uid = f["_edge_uid"].next
         self.frozen = net.frozen_flag
-        self.shadow = net.shadow
+        self.shadow = net.shadow.snapshot()
         self.warned = net.warned
 
 
